@@ -54,6 +54,10 @@ func (msg *MsgAddRateLimit) ValidateBasic() error {
 			"invalid channel or client-id (%s), must be of the format 'channel-{N}' or a valid client-id", msg.ChannelOrClientId)
 	}
 
+	if msg.MaxPercentSend.IsNil() || msg.MaxPercentRecv.IsNil() {
+		return errorsmod.Wrapf(sdkerrors.ErrInvalidRequest, "max-percent-send and max-percent-recv must be set")
+	}
+
 	if msg.MaxPercentSend.GT(sdkmath.NewInt(100)) || msg.MaxPercentSend.LT(sdkmath.ZeroInt()) {
 		return errorsmod.Wrapf(sdkerrors.ErrInvalidRequest,
 			"max-percent-send percent must be between 0 and 100 (inclusively), Provided: %v", msg.MaxPercentSend)
@@ -106,6 +110,10 @@ func (msg *MsgUpdateRateLimit) ValidateBasic() error {
 	if !matched && !clienttypes.IsValidClientID(msg.ChannelOrClientId) {
 		return errorsmod.Wrapf(sdkerrors.ErrInvalidRequest,
 			"invalid channel or client-id (%s), must be of the format 'channel-{N}' or a valid client-id", msg.ChannelOrClientId)
+	}
+
+	if msg.MaxPercentSend.IsNil() || msg.MaxPercentRecv.IsNil() {
+		return errorsmod.Wrapf(sdkerrors.ErrInvalidRequest, "max-percent-send and max-percent-recv must be set")
 	}
 
 	if msg.MaxPercentSend.GT(sdkmath.NewInt(100)) || msg.MaxPercentSend.LT(sdkmath.ZeroInt()) {
